@@ -608,3 +608,23 @@ def _default_summary(case):
         "n_events": len(evs),
         "first_events": evs[:6],
     }
+
+
+def print_digests(mod, tier, verif_seed, jobs, n):
+    """Self-test support: digests of the first n runs of every scenario, computed through the worker pool."""
+    known_sigs = [k["sig"] for k in load_known(mod.PROP)]
+    tasks = []
+    deadline = time.time() + 3600
+    for name, total in mod.scenarios(tier):
+        idxs = list(range(min(n, total)))
+        per = max(1, len(idxs) // max(1, jobs))
+        for s in range(0, len(idxs), per):
+            tasks.append((mod.__name__, mod.PROP, name, verif_seed, idxs[s:s + per], tier, deadline, known_sigs, 1200))
+    out = {}
+    ctxmp = multiprocessing.get_context("fork")
+    with ProcessPoolExecutor(max_workers=jobs, mp_context=ctxmp) as ex:
+        for chunk in ex.map(_worker_chunk, tasks):
+            for r in chunk:
+                out.setdefault(r["scenario"], {})[r["i"]] = r.get("digest") if not r.get("harness") else "HARNESS:" + r["harness"][:80]
+    print("DIGESTS " + json.dumps({k: [v[i] for i in sorted(v)] for k, v in sorted(out.items())}))
+    return 0
